@@ -75,6 +75,19 @@ func GetEDE(msg *dns.Msg) *dns.EDNS0_EDE {
 func SetRcodeWithEDE(req *dns.Msg, rcode int, do bool, edeCode uint16, extraText string) *dns.Msg {
 	m := SetRcode(req, rcode, do)
 	if rcode == dns.RcodeServerFailure {
+		if m.IsEdns0() == nil {
+			// The message the failure is attached to is not always a
+			// request: the cache composes failures onto cached alias
+			// answers, which carry no OPT, and SetEDE has nowhere to put
+			// the reason then. Every caller sits below the edns layer,
+			// which decides what the client finally sees (and drops the
+			// OPT for a client that sent none). The section is copied:
+			// SetRcode shares it with req.
+			opt := &dns.OPT{Hdr: dns.RR_Header{Name: ".", Rrtype: dns.TypeOPT}}
+			opt.SetUDPSize(DefaultMsgSize)
+			opt.SetDo(do)
+			m.Extra = append(append(make([]dns.RR, 0, len(m.Extra)+1), m.Extra...), opt)
+		}
 		SetEDE(m, edeCode, extraText)
 	}
 	return m
